@@ -1,26 +1,34 @@
 // C05: "A documentation comment is attached to the declaration it immediately precedes and to no other."
 // Attachment (get_comment_before, harness c05_comment_before) works on the list of CPPCommentBlocks the lexer CAPTURED;
 // this harness checks the capture of `//` comments: CPPPreprocessor::skip_cpp_comment decides whether a `//` line
-// continues the previous block or starts a new one, and records text and line span of the block.
+// continues the previous block or starts a new one, and records text, column and line span of the block.
 //
-// Real code under test: CPPPreprocessor::skip_whitespace -> skip_comment -> skip_cpp_comment (with the real
-// _last_cpp_comment bookkeeping of skip_comment), CPPPreprocessor::peek, get_line_number / get_col_number / get_file.
+// Real code under test: CPPPreprocessor::skip_comment -> skip_cpp_comment (with the real _last_cpp_comment bookkeeping
+// of skip_comment), CPPPreprocessor::peek, get_line_number / get_col_number / get_file, CPPCommentBlock, std::list.
 // Replaced (cut): CPPPreprocessor::get -- the real one deletes the finished InputFile and its std::istream at the end of
-// the input (a virtual destructor call that fans out over every stream class); see the replacement below -- and InputFile::get / InputFile::peek, copies that read a byte array instead of a std::istream (the
-// `while (c == '\r')` loop over a symbolic byte of the stream model unrolled to the bound at every get()).
+// the input (a virtual destructor call that fans out over every stream class); see the replacement below -- and
+// InputFile::get / InputFile::peek, copies that read a byte array instead of a std::istream (the `while (c == '\r')`
+// loop over a symbolic byte of the stream model unrolls to the bound at every get()); std::string::_M_replace (see below).
 //
 // Driver: what the lexer does between tokens (get_next_token0: `_last_c = skip_whitespace(get())`, skip_whitespace being
-// `loop { c = skip_comment(c); if (!isspace(c)) return c; c = get(); }` plus a backslash-newline case): every byte that is
-// not inside a comment is handed to the real skip_comment and the next byte is fetched with get(), a byte that is neither
-// blank nor part of a comment counting as a one-byte token.  The driver makes these calls line by line, so that every
-// path is at the same input position when a line ends (the position stays a constant for the solver's front end).
+// `loop { c = skip_comment(c); if (!isspace(c)) return c; c = get(); }` plus a backslash-newline case, not in the
+// alphabet): every byte that is not inside a comment is handed to the real skip_comment and the next byte is fetched with
+// get(); a byte that is neither blank nor part of a comment counts as a one-byte token.
 //
-// Input: LINES lines, the line WIDTHS are concrete (every tuple of widths in 0..WMAX with at most NMAX bytes in total is
-// enumerated by a concrete loop inside the query; slices [S_FROM, S_TO) per catalogue entry), the bytes of the lines are
-// symbolic over {'/', 'a', ' '}; every line ends with a newline.
+// Input: TWO `//` comments A and B with a GAP in between:
+//     <prefix> // <text A> \n <gap> // <text B> \n
+// prefix: P bytes over {space, a} (code or blanks before A on its line); text A / text B: TA / TB bytes over
+// {a, space, /}; gap: G bytes over {space, newline, a} (blank lines, indentation of B, code; no comment).  The LENGTHS
+// P, TA, G, TB are concrete (every combination within the catalogue's ranges is enumerated by concrete loops inside the
+// query, which keeps every input position a constant), the BYTES are symbolic: in particular where the newlines of the
+// gap are, i.e. how many lines lie between A and B and whether they are blank.
+// (A whole-input harness with symbolic comment positions was tried first: the number of blocks then is symbolic, the
+// tail of the std::list points into the CPPPreprocessor object or into a node, and the array encoding of those accesses
+// ran out of 16 GB for a single four-byte line.)
+//
 // Reference (independent scan of the bytes): a `//` comment runs to the end of its line; it continues the previous
 // block iff only blanks and ONE newline lie between the end of that block and this `//` (the block ended on the line
-// immediately before, no code, no blank line in between); otherwise it starts a new block.  Block text = the lines
+// immediately before; no code, no blank line in between); otherwise it starts a new block.  Block text = the lines
 // "//...\n" concatenated; first/last line and the column of the first `//` as counted from the bytes.
 #include "verif.h"
 #include "cppPreprocessor.h"
@@ -28,17 +36,23 @@
 #include <string>
 #include <stdio.h>
 
-#ifndef LINES
-#define LINES 3
+#ifndef P_MAX
+#define P_MAX 1
 #endif
-#ifndef WMAX
-#define WMAX 4
+#ifndef T_MIN
+#define T_MIN 0           // 1: no empty comment (a `//` directly followed by the end of its line)
 #endif
-#ifndef NMAX
-#define NMAX 8            // bytes in all lines together, newlines not counted
+#ifndef TA_MAX
+#define TA_MAX 2
 #endif
-#define TOTAL_MAX (NMAX + LINES)
-#define RB_MAX LINES
+#ifndef TB_MAX
+#define TB_MAX 1
+#endif
+#ifndef G_MAX
+#define G_MAX 3
+#endif
+#define TOTAL_MAX (P_MAX + 3 + TA_MAX + G_MAX + 3 + TB_MAX)
+#define RB_MAX 2
 #define TEXT_MAX (TOTAL_MAX + 2)
 #define NOINL __attribute__((noinline))
 
@@ -134,11 +148,10 @@ static NOINL CPPPreprocessor *make_pp(const char *bytes, int total) {
   return pp;
 }
 
-static char pick_char() {
-  unsigned char k = nondet_uchar();
-  ASSUME(k < 3);
-  return k == 0 ? '/' : k == 1 ? 'a' : ' ';
-}
+static unsigned char pick3() { unsigned char k = nondet_uchar(); ASSUME(k < 3); return k; }
+static char pick_prefix() { unsigned char k = nondet_uchar(); ASSUME(k < 2); return k == 0 ? ' ' : 'a'; }
+static char pick_text() { unsigned char k = pick3(); return k == 0 ? 'a' : k == 1 ? ' ' : '/'; }
+static char pick_gap() { unsigned char k = pick3(); return k == 0 ? ' ' : k == 1 ? '\n' : 'a'; }
 
 struct RefBlock { int first, last, col, len; char text[TEXT_MAX + 1]; };
 struct Ref { int nblocks, ntokens, maxtext; bool empty_comment; RefBlock blk[RB_MAX + 1]; };
@@ -196,33 +209,30 @@ static NOINL bool text_equal(const std::string &s, const RefBlock *rb) {
   return true;
 }
 
-static NOINL void scenario(const int *width) {
+static NOINL void scenario(int np, int na, int ng, int nb) {
   static char b[TOTAL_MAX + 1];
   int total = 0;
-  for (int l = 0; l < LINES; l++) {
-    for (int j = 0; j < width[l]; j++) b[total++] = pick_char();
-    b[total++] = '\n';
-  }
+  for (int k = 0; k < np; k++) b[total++] = pick_prefix();
+  b[total++] = '/'; b[total++] = '/';
+  for (int k = 0; k < na; k++) b[total++] = pick_text();
+  b[total++] = '\n';
+  for (int k = 0; k < ng; k++) b[total++] = pick_gap();
+  b[total++] = '/'; b[total++] = '/';
+  for (int k = 0; k < nb; k++) b[total++] = pick_text();
+  b[total++] = '\n';
 
   static Ref ref;
   reference(b, total, &ref);
-#ifdef EXCLUDE_EMPTY_COMMENT
-  ASSUME(!ref.empty_comment);            // no `//` directly followed by the end of its line
-#endif
 
   CPPPreprocessor *pp = make_pp(b, total);
   int c = pp->get();
-  for (int l = 0; l < LINES; l++) {
-    for (int j = 0; j <= width[l]; j++) {
-      c = pp->skip_comment(c);           // a byte of line l, or its newline
-      if (c == '\n') break;              // the newline itself, or the one that ended a // comment
-      c = pp->get();
-    }
-    ASSERT(c == '\n', "C05 a // comment ends with its line");
-    c = pp->get();                       // first byte of the next line; after the last line the synthesized newline
+  for (int step = 0; step < total + 1; step++) {
+    if (c == EOF) break;
+    c = pp->skip_comment(c);
+    if (c == EOF) break;
+    c = pp->get();
   }
-  int last = pp->get();
-  ASSERT(c == '\n' && last == EOF, "C05 the whole input was read");
+  ASSERT(c == EOF, "C05 the whole input was read");
 
 #ifdef VERIF_NATIVE
   printf("input (%d bytes): \"", total);
@@ -250,32 +260,11 @@ static NOINL void scenario(const int *width) {
   }
 }
 
-#ifndef S_FROM
-#define S_FROM 0
-#endif
-#ifndef S_TO
-#define S_TO 1000000
-#endif
 extern "C" void harness_c05_cpp_comments() {
-  // every tuple of line widths (odometer), numbered; the entry runs the tuples S_FROM <= number < S_TO
-  int width[LINES];
-  for (int l = 0; l < LINES; l++) width[l] = 0;
-  int number = 0, run = 0;
-  for (;;) {
-    int sum = 0;
-    for (int l = 0; l < LINES; l++) sum += width[l];
-    if (sum <= NMAX) {
-      if (number >= S_FROM && number < S_TO) { scenario(width); run++; }
-      number++;
-    }
-    int l = 0;
-    while (l < LINES && width[l] == WMAX) width[l++] = 0;
-    if (l == LINES) break;
-    width[l]++;
-  }
-#ifdef VERIF_NATIVE
-  printf("%d width tuples, %d run\n", number, run);
-#endif
-  ASSERT(run > 0, "C05 (harness) the slice of width tuples is not empty");
+  for (int np = 0; np <= P_MAX; np++)
+    for (int na = T_MIN; na <= TA_MAX; na++)
+      for (int ng = 0; ng <= G_MAX; ng++)
+        for (int nb = T_MIN; nb <= TB_MAX; nb++)
+          scenario(np, na, ng, nb);
   WITNESS();
 }
